@@ -106,6 +106,14 @@ pub fn make_base(pool: &Pool, rng: &mut Rng, idx: usize, small_only: bool) -> Ba
     if !force_fault && pres.iter().all(|p| *p == 1) {
         pres[0] = 2;
     }
+    // the two report bases that exist whatever the seed: one starts without any output or report,
+    // the other from the output and report of a materially different grammar
+    if idx % 8 == 1 {
+        pres[0] = 0;
+    }
+    if idx % 8 == 3 {
+        pres[0] = 2;
+    }
     // phase 1: older texts for stale-hash outputs, current texts otherwise
     for (fi, f) in files.iter().enumerate() {
         let t = rng.pick(&texts).bytes.clone();
@@ -113,8 +121,23 @@ pub fn make_base(pool: &Pool, rng: &mut Rng, idx: usize, small_only: bool) -> Ba
         let pre = pres[fi];
         match pre {
             2 => {
-                // stale hash: build an older text first
-                let old = apply_edit(&t, Edit::AppendComment, 7 + fi as u64);
+                // stale hash: build an older text first -- a comment edit, or another grammar altogether
+                // (then the old output and the old report differ from the new ones in the body too)
+                let old = if idx % 8 == 3 || rng.chance(1, 2) {
+                    let mut o = rng.pick(&texts).bytes.clone();
+                    let mut tries = 0;
+                    while o == t && tries < 8 {
+                        o = rng.pick(&texts).bytes.clone();
+                        tries += 1;
+                    }
+                    if o == t {
+                        apply_edit(&t, Edit::AppendComment, 7 + fi as u64)
+                    } else {
+                        o
+                    }
+                } else {
+                    apply_edit(&t, Edit::AppendComment, 7 + fi as u64)
+                };
                 prep.push(text_op(f, &old));
             }
             _ => prep.push(text_op(f, &current)),
@@ -396,6 +419,7 @@ pub fn run(engine: &Engine, tier: &str, seed: u64) -> i32 {
     }
     let outs: Vec<JobOut> = engine.par_map(&jobs, |ctx, pt| {
         let b = &bases[pt.base];
+        crate::world::remove_tree(&ctx.world.tmpdir());
         restore(&ctx.world.root(), &prepared[pt.base].0);
         // run only the tail (fault build + final build) from the snapshot
         let mut f = b.fault.clone();
